@@ -3,6 +3,7 @@ package main
 import (
 	"fmt"
 	"go/token"
+	"go/types"
 	"strings"
 
 	"golang.org/x/tools/go/ssa"
@@ -159,6 +160,137 @@ func runC15(w *World, r *Report) {
 		}
 		r.Check(isDrop, "C15-R4", cons+" | drop key", mu.Pos(), "key = result 1 of util.Get*InfoKeys", "the table is keyed by something other than the drop key of util.Get*InfoKeys: the writer will never find the entry")
 	})
+
+	// ---------- R7 no name-keyed memo between the passes
+	r.Rule("C15-R7", "key components are not read from a memo keyed by a bare name", "inside GetAllDroppedObj no argument of util.Get*InfoKeys derives from a lookup in a map built in this function whose key is a single name (a collection name identifies a collection only together with its database / id)", 0)
+	nMemo := 0
+	eachInstr(fn, func(in ssa.Instruction) {
+		c, ok := in.(*ssa.Call)
+		if !ok {
+			return
+		}
+		s := callSym(c.Common())
+		if s.pkg != pkgUtil || keyFns[s.name] == nil {
+			return
+		}
+		for i, a := range c.Call.Args {
+			for _, v := range backSlice(a, SliceOpts{MaxDepth: 8, NoAggregates: true}) {
+				lk, isLk := v.(*ssa.Lookup)
+				if !isLk {
+					continue
+				}
+				mt, isMap := lk.X.Type().Underlying().(*types.Map)
+				if !isMap {
+					continue
+				}
+				if _, local := baseObject(fam, lk.X).(*ssa.MakeMap); !local || baseObject(fam, lk.X) == ssa.Value(res) {
+					continue
+				}
+				if b, isB := mt.Key().Underlying().(*types.Basic); !isB || b.Kind() != types.String {
+					continue // keyed by an id
+				}
+				// composite keys (results of the key constructors) identify the object
+				composite := false
+				for _, kv := range backSlice(lk.Index, SliceOpts{MaxDepth: 4, NoAggregates: true}) {
+					if kc, isC := kv.(*ssa.Call); isC && (keyFns[callSym(kc.Common()).name] != nil || callSym(kc.Common()).name == "Sprintf") {
+						composite = true
+					}
+				}
+				nMemo++
+				r.Check(composite, "C15-R7", fmt.Sprintf("(*EtcdOp).GetAllDroppedObj | %s arg%d (%s) via local table #%d", s.name, i, keyFns[s.name][i], nMemo), lk.Pos(), "the table is keyed by a composite key", "this component of the key is read from a table of this function that is keyed by a bare name: two collections of the same name in different databases share the entry, so a partition is keyed under the other collection's database (a live object gets a drop horizon, a dropped one loses it)")
+			}
+		}
+	})
+	if nMemo == 0 {
+		r.OK("C15-R7", "(*EtcdOp).GetAllDroppedObj | census", fn.Pos(), "no key component is read from a local table")
+	}
+	// ---------- R8 the result tables only grow
+	r.Rule("C15-R8", "entries of the result tables are never removed", "no delete() on a table reached through the result map: every entry was recorded for a name that has a dropped incarnation (R3), removing one makes replayed operations on that incarnation run", 0)
+	nDel := 0
+	for _, g := range fam.Funcs {
+		eachInstr(g, func(in ssa.Instruction) {
+			c, ok := in.(*ssa.Call)
+			if !ok {
+				return
+			}
+			if b, isB := c.Call.Value.(*ssa.Builtin); !isB || b.Name() != "delete" {
+				return
+			}
+			if isResultInner(c.Call.Args[0]) || baseObject(fam, c.Call.Args[0]) == ssa.Value(res) {
+				nDel++
+				r.Fail("C15-R8", fmt.Sprintf("(*EtcdOp).GetAllDroppedObj | delete from a result table #%d", nDel), c.Pos(), "an entry of the dropped-object snapshot is removed after it was recorded: the name has a dropped incarnation but no horizon, so operations replayed for that incarnation are not skipped (the task stops with 'not ready')")
+			}
+		})
+	}
+	if nDel == 0 {
+		r.OK("C15-R8", "(*EtcdOp).GetAllDroppedObj | census", fn.Pos(), "no delete() on the result tables")
+	}
+	// ---------- R9 the id->name tables the snapshot reads are loaded by a checked call
+	r.Rule("C15-R9", "the database table is loaded and its failure stops the snapshot", "GetAllDroppedObj calls a function that fills EtcdOp.dbID2Name (getDatabases) before the collection loop and tests its error on a branch that does not continue with the snapshot: an unreadable database listing must not turn into 'every database is gone' (an empty snapshot)", 1)
+	{
+		writers := map[*ssa.Function]bool{}
+		for _, f := range w.RepoFuncs() {
+			if f.Pkg == nil || f.Pkg.Pkg.Path() != pkgReader || f.Parent() != nil {
+				continue
+			}
+			eachInstrDeep(f, func(_ *ssa.Function, in ssa.Instruction) {
+				if c, ok := in.(*ssa.Call); ok && callSym(c.Common()).name == "Store" {
+					if rv := callRecv(c.Common()); rv != nil && strings.HasSuffix(w.accessPath(rv), ".dbID2Name") {
+						writers[f] = true
+					}
+				}
+			})
+		}
+		var firstLoop *ssa.BasicBlock
+		for _, b := range fn.Blocks {
+			if loopHeaderOf(b) == b && firstLoop == nil {
+				firstLoop = b
+			}
+		}
+		okLoad := false
+		var loadPos token.Pos
+		eachInstr(fn, func(in ssa.Instruction) {
+			c, ok := in.(*ssa.Call)
+			if !ok || okLoad {
+				return
+			}
+			cal := c.Common().StaticCallee()
+			if cal == nil || !writers[cal] {
+				return
+			}
+			loadPos = c.Pos()
+			// its error is tested and the non-nil side cannot reach the first loop
+			for _, b := range fn.Blocks {
+				v, nn, _, isT := errNilTest(b)
+				if !isT || errOrigin(fam, v) != c {
+					continue
+				}
+				reach := blockReach(nn, nil)
+				stops := true
+				if firstLoop != nil && (reach[firstLoop] || nn == firstLoop) {
+					// a log.Panic on the branch ends it as well
+					stops = false
+					for _, x := range nn.Instrs {
+						if pc, isC := x.(*ssa.Call); isC && strings.HasSuffix(callSym(pc.Common()).pkg, "/log") && (callSym(pc.Common()).name == "Panic" || callSym(pc.Common()).name == "Fatal") {
+							stops = true
+						}
+					}
+				}
+				if stops && (firstLoop == nil || c.Block().Dominates(firstLoop)) {
+					okLoad = true
+				}
+			}
+		})
+		detail := "no call of a function that fills dbID2Name is made (directly) by GetAllDroppedObj"
+		if loadPos.IsValid() {
+			detail = "the error of the call that fills dbID2Name is not tested, or the failing branch continues with the snapshot"
+		}
+		if len(writers) == 0 {
+			r.Undecided("C15-R9", "(*EtcdOp).GetAllDroppedObj | dbID2Name writers", fn.Pos(), "no function storing into EtcdOp.dbID2Name found")
+		} else {
+			r.Check(okLoad, "C15-R9", "(*EtcdOp).GetAllDroppedObj | database table loaded with a checked call", fn.Pos(), "getDatabases is called before the loops and its failure stops the snapshot", detail+": when the database listing fails every collection looks like 'database gone', is skipped, and the snapshot comes back empty without an error — dropped objects get no horizon")
+		}
+	}
 
 	// ---------- R6 the horizon base is the SOURCE time only
 	r.Rule("C15-R6", "horizons are measured on the source clock", "the time handed to ComposeTSByTime in GetAllDroppedObj derives from the TSO key read from the source catalog only: no local clock (time.Now / time.Since) flows into it", 1)
